@@ -662,6 +662,16 @@ def main():
         for n in hits:
             if (n, kind) not in obl:
                 obl.append((n, kind))
+    # overrides: a type that overrides a provided trait method (from_slice, to_vec, from_tagged_slice, to_tagged_vec) is checked by
+    # Verus against the trait-level contract; such an override is an obligation of every property that lists the provided method
+    listed_shorts = set(n.split('::')[-1] for n, k in obl if k == 'body')
+    override_set = set()
+    for n, v in sorted(tab.items()):
+        sh = n.split('::')[-1]
+        if sh in ('from_slice', 'to_vec', 'from_tagged_slice', 'to_tagged_vec') and sh in listed_shorts and v.get('mode') == 'exec' and not n.startswith('kani:') \
+                and '__nec_' not in n and '__ref_' not in n and (n, 'body') not in obl:
+            obl.append((n, 'body'))
+            override_set.add(n)
     # callee closure: a property is only as good as the contracts of everything its functions call, and those callees'
     # bodies are obligations of the property too.  Calls are resolved by name (over-approximation); names with many
     # definitions (from_cbor_value, to_cbor_value, from_i64, new, ...) are not followed automatically - those callees are
@@ -754,7 +764,7 @@ def main():
     rlimit_hit = [d for d in run['diagnostics'] if 'rlimit' in d['message'] or 'Resource limit' in d['message']]
     discharged = len(obl) - len(failed)
     per = [{'obligation': n, 'kind': k, 'backend': ('kani/cbmc complete' if (k == 'kani' or n in second) else 'kani/cbmc ' + k[5:] if k.startswith('kani') else 'verus/z3'), 'discharged': ok(n, k) or n in not_relevant, 'expect': ('fail' if k == 'nec' else 'fail only at the documented panic' if k == 'ref' else 'pass'),
-            'time_ms': tab[n]['time_us'] // 1000, 'rlimit': tab[n]['rlimit'], 'source': ('callee closure' if n in auto_set else 'listed')} for n, k in obl]
+            'time_ms': tab[n]['time_us'] // 1000, 'rlimit': tab[n]['rlimit'], 'source': ('callee closure' if n in auto_set else 'override of a listed provided trait method' if n in override_set else 'listed')} for n, k in obl]
     cov = {
         'obligations': len(obl), 'discharged': discharged,
         'checker_cmd': run['cmd'] + ((' ; ' + kani['cmd']) if kani else ''),
